@@ -172,6 +172,14 @@ func (w *failingWriter) Write(p []byte) (int, error) {
 	return w.buf.Write(p)
 }
 
+// fileLikeWriter is a failingWriter that also has the other methods a file or a buffered writer has; they
+// all succeed. An error of Write stays the error of the entry being written whatever else the sink offers.
+type fileLikeWriter struct{ *failingWriter }
+
+func (w fileLikeWriter) Sync() error  { return nil }
+func (w fileLikeWriter) Flush() error { return nil }
+func (w fileLikeWriter) Close() error { return nil }
+
 func sameEntry(got *tlog.Entry, e logEntry, di *dialectInfo) error {
 	want := time.UnixMicro(e.t.UnixMicro()).UTC()
 	if !got.Time.Equal(want) || got.Time.Location() != time.UTC {
@@ -246,7 +254,7 @@ func readLogFrom(src io.Reader, n int, drw *dialect.ReadWriter) ([]*tlog.Entry, 
 
 func TestC20Logs(t *testing.T) {
 	rec := evid.New(t, "C20", "generated entry sequences (0..30 entries: v1/v2/signed frames, raw and dialect messages, times on both sides of the epoch with sub-microsecond parts, unencodable entries interleaved) written with tlog.Writer; oracles: file bytes == concatenation of BE64(floor(t,us)) ++ reference frame bytes, unencodable entries return an error and leave the file untouched, read-back equals what was written, every truncation point of the file yields exactly the complete entries before the cut and then an error, a failing io.Writer is reported; non-trivial = >=3 entries of mixed versions with a negative or sub-us timestamp, or an unencodable entry between good ones; distinct by hash of the file")
-	rec.Require("cut-in-timestamp", "cut-in-header", "cut-in-payload", "cut-in-signature", "bad-entry-between-good", "negative-time", "sub-us", "writer-fault", "dialect", "longer-than-reader-window", "longer-than-3-reader-windows", "file-arrives-in-pieces", "unsigned-entry-with-leftover-signature-fields")
+	rec.Require("cut-in-timestamp", "cut-in-header", "cut-in-payload", "cut-in-signature", "bad-entry-between-good", "negative-time", "sub-us", "writer-fault", "writer-fault-on-a-file-like-sink", "dialect", "longer-than-reader-window", "longer-than-3-reader-windows", "file-arrives-in-pieces", "unsigned-entry-with-leftover-signature-fields")
 	dpool := pool(t)
 	errBoom := errors.New("injected write error")
 	evid.Check(t, rec, evid.N(4000, 12000), func(t *rapid.T) {
@@ -447,6 +455,11 @@ func TestC20Logs(t *testing.T) {
 			k := rapid.IntRange(1, total).Draw(t, "fail_call")
 			fw2 := &failingWriter{failK: k, err: errBoom, mode: rapid.IntRange(0, 2).Draw(t, "fail_mode")}
 			w2 := &tlog.Writer{ByteWriter: fw2, DialectRW: drw}
+			fileLike := rapid.Bool().Draw(t, "sink_is_file_like")
+			if fileLike {
+				w2.ByteWriter = fileLikeWriter{fw2}
+				rec.Class("writer-fault-on-a-file-like-sink", 1)
+			}
 			if err := w2.Initialize(); err != nil {
 				t.Fatalf("BROKEN: %v", err)
 			}
@@ -455,7 +468,7 @@ func TestC20Logs(t *testing.T) {
 				err := w2.Write(&tlog.Entry{Time: e.t, Frame: gen.ToLibEntry(e.lib)})
 				if fw2.calls >= k {
 					if err != errBoom && !errors.Is(err, errBoom) {
-						t.Fatalf("the io.Writer failed on its call %d (entry %d) but Write returned %v", k, i, err)
+						t.Fatalf("the io.Writer (also offering Sync/Flush/Close that succeed: %v) failed on its call %d (entry %d) but Write returned %v", fileLike, k, i, err)
 					}
 					reported = true
 					break
